@@ -138,21 +138,23 @@ def kv(field):
 # ---------------------------------------------------------------------------
 # Table-driven trait type
 
-def make_tab_trait(pool, vtab, dflt, kind="T", cmp=2, orig=0, porig=0, post="-", vk=None, state=None):
+def make_tab_trait(pool, vtab, dflt, kind="T", cmp=2, orig=0, porig=0, post="-", vk=None, state=None, only=None):
     """A TraitType whose `validate` is the table `vtab` (list over pool ids:
     '=' same object, 'T' TraitError, 'E' ValueError, or a pool id to map to;
     None = no validate at all), with the requested flags.  `state` collects the
-    post_setattr log and the validator ordinal."""
+    post_setattr log and the validator ordinal.  `only`: the definition is shared by several names and only the
+    calls made for that name are counted / logged (the table applies to all of them)."""
     from traits.api import TraitType, TraitError
     from traits.constants import ComparisonMode
 
     ns = {}
     if vtab is not None:
         def validate(self, object, name, value):
-            n = state["nval"]
-            state["nval"] += 1
-            if vk is not None and n == vk:
-                raise TraitError("validator fails at call %d" % n)
+            if only is None or name == only:
+                n = state["nval"]
+                state["nval"] += 1
+                if vk is not None and n == vk:
+                    raise TraitError("validator fails at call %d" % n)
             i = pool.idof(value)
             act = vtab[i] if i is not None else "T"
             if act == "=":
@@ -165,6 +167,8 @@ def make_tab_trait(pool, vtab, dflt, kind="T", cmp=2, orig=0, porig=0, post="-",
         ns["validate"] = validate
     if post != "-":
         def post_setattr(self, object, name, value):
+            if only is not None and name != only:
+                return
             n = len(state["post"])
             state["post"].append(value)
             if post.startswith("k") and n == int(post[1:]):
